@@ -12,6 +12,7 @@ import SeliumModel.Lemmas.PubSubSettle
 import SeliumModel.Lemmas.ReqRepMore
 import SeliumModel.Lemmas.ReqRepClosed
 import SeliumModel.Lemmas.ReqRepQuiet
+import SeliumModel.Lemmas.ReqRepSettle
 import SeliumModel.Lemmas.System
 
 namespace Selium.Route
@@ -129,6 +130,16 @@ open Selium.Sink
 theorem c16_reqrep_done_flushed (fuel : Nat) (s : RR) (h : (rrPoll fuel s).1 = .done) :
     ∀ k ∈ (rrPoll fuel s).2.sinks, k.flushed = k.got.length := (rrPoll_quiet fuel s).2 h
 
+/-- "Shutdown therefore cannot hang on a topic", request/reply half: from any state in which the channel has been closed,
+    whatever the requestors', the replier's and a rejected replier's sinks answer (any finite run of Pending answers, errors) and
+    whatever the `StreamMap` / `HashMap` orders are, the wake-driven executor reaches `Poll::Ready(())` within `rmeasure s` further
+    polls, and every reply that had been handed to a requestor's sink is flushed by then. -/
+theorem c16_reqrep_shutdown_completes (s : RR) (hc : s.closed = true) (orc : Nat → List Nat × List Nat) :
+    ∃ n, n ≤ rmeasure s ∧
+      (rrPoll (rwork (rrRunPolls orc n s) + 1) (withOracles (rrRunPolls orc n s) (orc n))).1 = .done ∧
+      ∀ k ∈ (rrPoll (rwork (rrRunPolls orc n s) + 1) (withOracles (rrRunPolls orc n s) (orc n))).2.sinks,
+        k.flushed = k.got.length := rrRunPolls_closed_finishes s hc orc
+
 /-- Once the channel is closed a poll of the request/reply router, from any state (idle, only one side
     connected, a request / reply / rejection buffered, sockets still queued), finishes or is waiting for one
     particular sink that answered Pending — within `rwork s + 1` iterations. It never goes back to waiting for
@@ -209,6 +220,7 @@ end Selium.Server
 #print axioms Selium.Route.c16_pubsub_closed_takes_nothing_more
 #print axioms Selium.Route.c16_reqrep_closed_outcome
 #print axioms Selium.Route.c16_reqrep_done_flushed
+#print axioms Selium.Route.c16_reqrep_shutdown_completes
 #print axioms Selium.Route.c16_reqrep_closed_takes_nothing_more
 #print axioms Selium.Server.c16_shutdown_closes_every_topic
 #print axioms Selium.Server.c16_server_shutdown_every_pubsub_topic_completes
